@@ -10,6 +10,9 @@ DIAG = ('ok', 'EOFError', 'TypeError', 'AssertionError')
 HANG_S = float(os.environ.get('VERIF_HANG_S', '5'))
 
 
+_warmed = False
+
+
 class Hang(BaseException):
     pass
 
@@ -22,9 +25,21 @@ def guarded(fn, *a, **k):
     """Run fn under the watchdog; returns (outcome, value).  A first 'hang' is not believed: the call is repeated once with six
     times the budget (on a heavily loaded machine page faults and collector pauses were seen to use up the first budget on
     inputs that parse in milliseconds); only a call that exceeds that too is reported as a hang."""
+    import time
+    global _warmed
+    if not _warmed:
+        _warmed = True
+        _warm()
+    t0, w0 = time.process_time(), time.time()
     o, v = _guarded_once(HANG_S, fn, a, k)
     if o == 'hang':
+        t1, w1 = time.process_time(), time.time()
         o, v = _guarded_once(6 * HANG_S, fn, a, k)
+        try:        # diagnostic trail of budget overruns that a second attempt did not confirm (build/ is not committed)
+            with open(os.path.join(os.path.dirname(os.path.dirname(os.path.abspath(__file__))), 'build', 'unconfirmed_hangs.log'), 'a') as f:
+                f.write('pid=%d first: cpu=%.2fs wall=%.2fs; second: %s cpu=%.2fs\n' % (os.getpid(), t1 - t0, w1 - w0, o, time.process_time() - t1))
+        except OSError:
+            pass
     return o, v
 
 
@@ -107,10 +122,22 @@ def _exp_job(args):
 _pool = None
 
 
+def _warm():
+    """import the library and parse once OUTSIDE any watchdog window: on a freshly restored machine the first import in a
+    worker (no byte-code cache, cold file system) was seen to use up the watchdog budget of the first document it parsed"""
+    try:
+        from TexSoup import TexSoup
+        from harness import proj  # noqa
+        str(TexSoup('\\a{b} $c$ \\begin{e}x\\end{e}'))
+    except Exception:   # noqa
+        pass
+
+
 def pool():
     global _pool
     if _pool is None:
-        _pool = multiprocessing.Pool(int(os.environ.get('VERIF_PROCS', '16')))
+        _warm()
+        _pool = multiprocessing.Pool(int(os.environ.get('VERIF_PROCS', '16')), initializer=_warm)
     return _pool
 
 
